@@ -173,6 +173,9 @@ def check_conc(prop, tier):
                 quiescent_points_checked=s2["quiet"] + s["quiet"], returns_checked=s2["retchk"] + s["retchk"])
         classify_tv(res, s2, CONC_MON[prop], KF_OF.get(prop, set()), lambda i: hs2[i], "recorded execution", trace=h2["trace"])
         drift += len(s2["drifts"])
+        if prop == "C12":
+            import order_checks
+            order_checks.aggregate_algebra(res, work)
         if prop == "C08":
             import queue_checks
             drift += queue_checks.queue_conc_part(res, work, tier, rng)
@@ -311,6 +314,9 @@ def check_seq(prop, tier):
             if "Inv_C04raw" not in rw["violated"]:
                 raise ToolError("the model no longer contains the tail re-queue / stale ticket deviations: C04 check would be vacuous")
 
+        if prop == "C01":
+            import order_checks
+            order_checks.aggregate_algebra(res, work)
         if prop == "C02":
             mres_part(res, work, tier)
             # the lifetime bound (an order never trades more than it brought; a maker was resting) also under
